@@ -23,7 +23,7 @@ class C08(scen.WorldProp):
                   "Wheatley bell. non-trivial = ownership changed during the touch")
 
     def cases(self, rng, tier):
-        n = 50 if tier == "quick" else 500
+        n = 200 if tier == "quick" else 2000
         for i in range(n):
             N = rng.choice([4, 6, 6, 8])
             named = rng.random() < 0.4
@@ -152,7 +152,11 @@ class C08(scen.WorldProp):
                 cur = [snp for (tt, snp) in timeline if tt <= t][-1]
                 if cur.get(b):
                     human_touched_wheatley = True
-            prev_t = t
+            # the turn of the next bell began when the previous turn ended.  A human's turn ends when the
+            # human is heard, or at its time on the line when it is not awaited (keep-going mode, a bell
+            # marked as rung early), so only Wheatley's own previous strike bounds the next turn
+            if by == "wheatley":
+                prev_t = t
         for (t, b, h) in scen.rings(reply):
             pass
         # with assignments changing mid-turn a human may legitimately strike a bell Wheatley sampled
